@@ -15,6 +15,8 @@ impl Clone for Error {
 //@end
 //@extract file=src/error/execution.rs path="type Result" kind=type id=execution::Result
 //@end
+//@extract file=src/error/execution.rs path="type Errors" kind=type id=execution::Errors
+//@end
 
 //@extract file=src/error/execution.rs path="impl container::Locatable for Error" kind=header
 //@end
